@@ -233,6 +233,28 @@ pub fn run(args: &Args) -> Value {
             }
             lits.push(l);
         }
+        // a literal the formatter cannot handle (the user is mid-typing: parse error) standing BEFORE literals it
+        // can: the edits of the later ones must still address exactly their own text
+        if nlits >= 2 && rng.chance(1, 3) {
+            let i = rng.below(nlits - 1);
+            let t = &mut lits[i].text;
+            match t.find('{') {
+                Some(p) if rng.chance(1, 2) => t.insert_str(p + 1, " ( "),
+                _ => {
+                    let mut cut = t.len() / 2;
+                    while !t.is_char_boundary(cut) {
+                        cut -= 1;
+                    }
+                    t.truncate(cut);
+                    // stay inside the documented domain (LF / CRLF documents): no lone CR from cutting a CRLF in two
+                    while t.ends_with('\r') {
+                        t.pop();
+                    }
+                }
+            }
+            lits[i].probes.clear();
+            rep.count("documents_with_a_deliberately_broken_literal_before_others", 1);
+        }
         let doc = generate::assemble(&mut rng, &lits, &DocOpts { non_ascii, crlf });
         rep.cases += 1;
         rep.count("literals", nlits as u64);
@@ -288,7 +310,9 @@ pub fn run(args: &Args) -> Value {
                 } else {
                     match edits_from_response(&resp) {
                         Err(e) => {
-                            if accepted.iter().any(|a| *a) {
+                            // no edits at all: only judged when every literal is formattable (what the server does
+                            // for the rest of a document that contains a broken literal is not part of the statement)
+                            if accepted.iter().all(|a| *a) {
                                 rep.finding("format-no-edit", "C22/format-no-edit/document".to_string(), e, json!({"case": case, "seed": seed, "document": doc.text}));
                             }
                         }
